@@ -20,6 +20,10 @@ CHECKS = {
         text='Aggregations (matrix, counter, graph edges, occupancy, atom locations, rates, jump diffusivity) are TLA+ operators over the jump/event tables; TLC checks conservation on the model and judges every recorded API result, with squared minimum-image site distances computed exactly from the integer metric tensor.',
         note='Trusted: TLC; exact-lattice abstraction (sites on a /32 grid, integer metric tensor); scipy CODATA constants for alpha. Transitions.matrix() folding of no-site events is known finding D5.',
         ref='DESIGN.md 8/C05', technique='TLA+ spec Sites.tla + Lattice.tla; TLC model checking + trace validation with exact integer oracle'),
+    'C01': dict(
+        text='The in-place positions/displacements switches are transcribed into TLA+; TLC checks in-cell, same-modulo-1, minimum-image, telescoping and lattice-shift invariance for every raw one-coordinate trajectory over all shifts (MC_Wrap) and along every call sequence (MC_Trajectory); recorded executions with lattice-shifted and face-adjacent inputs in 6 cell families are judged by the trace spec, distances through the integer metric tensor.',
+        note='Trusted: TLC; exact-lattice abstraction (/16 grid, face menu k/16+e); half-cell steps excluded as ambiguous. Generic floats only via rotated cells.',
+        ref='DESIGN.md 8/C01', technique='TLA+ spec Trajectory.tla; TLC model checking (MC_Wrap, MC_Trajectory) + trace validation (TraceTraj.tla)'),
     'C02': dict(
         text='Site assignment is specified on an exact integer lattice (metric tensor only, so orientation-free); TLC checks uniqueness / inner-in-outer / translation lemmas exhaustively on a small grid and judges the .states/.inner_states recorded from the real code for 6 cell families x 3 orientations x 4 radius modes with exact minimum-image distances.',
         note='Trusted: TLC integer arithmetic, exact-lattice abstraction (atoms and sites on a /64 grid; radii with r^2 N^2 away from integers). Generic non-grid floats are only reached through random rotations of the cell.',
@@ -28,6 +32,14 @@ CHECKS = {
         text='The sorted scan of collective.py is transcribed into TLA+ and TLC proves it equal to the declarative pair definition on every bounded jump table (negative control: the early exit originally coded is refuted); TLC-exported tables are replayed through Collective and random tables in real cells are judged by the trace spec with exact site distances.',
         note='Trusted: TLC; tables injected through the public Jumps(conversion_method=...) parameter; cut-offs kept 1e-4 away from site distances.',
         ref='DESIGN.md 8/C12', technique='TLA+ spec Sites.tla (CodePairs vs DeclPairs), MC_Coll with negative control; replay of TLC-exported tables + trace validation (TraceColl.tla)'),
+    'C13': dict(
+        text='Drift correction is an action of the Trajectory object-store spec; TLC checks on the model that the reference does not move and the first frame is kept along every call sequence, and judges recorded drift()/apply_drift_correction() calls of the real code (fixed/floating/none, str/list/set, Species/Element, raw/derived/already-corrected objects) against the exact corrected walk.',
+        note='Trusted: TLC; steps below a quarter cell; means kept on the /192 grid (<= 4 reference atoms).',
+        ref='DESIGN.md 8/C13', technique='TLA+ spec Trajectory.tla (CorrectedStepsTimesL, DriftClauses); TLC model checking + trace validation (TraceTraj.tla)'),
+    'C15': dict(
+        text='gemdat.Trajectory is specified as an object store whose objects hold one coords array switched in place between positions and displacements; TLC explores every call sequence up to a bound (AbsStable: every live object keeps denoting its ghost), every model behaviour is replayed on the real class, and long random call sequences are validated event by event with the projection of every live object.',
+        note='Trusted: TLC; projection of objects from public attributes (coords, coords_are_displacement, base_positions); constant-cell trajectories only.',
+        ref='DESIGN.md 8/C15', technique='TLA+ spec Trajectory.tla; TLC model checking (MC_Trajectory + negative control) + replay of all exported behaviours + trace validation (TraceTraj.tla)'),
     'C19': dict(
         text='TLC checks on every bounded history and every cut that part jumps are jumps of the whole; recorded split() results of the real code are validated by the trace spec for partition, exactly-once, re-basing and chronology with an offset witness.',
         note='Where part boundaries fall is deliberately not constrained. Trusted: TLC, harness witness search (exhaustive, verified by TLC).',
